@@ -86,7 +86,7 @@ def gen_chan(ctx, family, infos, maxn=13, timeout=1800, sel=None):
     rows = [i for i in infos if (sel is None or sel(i)) and not i.get("skip")]
     # the generator only needs the packet structure
     write_ndjson(sess_file, [{"sid": i["sid"], "cfg": {"fdt_dur": i["cfg"].get("fdt_dur", 3600)},
-                              "pkts": [{"k": p["k"], "o": p["o"], "id": p["id"], "sbn": p["sbn"], "esi": p["esi"]} for p in i["pkts"]]} for i in rows])
+                              "pkts": [{"k": p["k"], "o": p["o"], "id": p["id"], "sbn": p["sbn"], "esi": p["esi"], "t": p["t"]} for p in i["pkts"]]} for i in rows])
     cfg = ctx.path("genchan-%s.cfg" % family)
     with open(cfg, "w") as f:
         f.write('SPECIFICATION Spec\nCONSTANTS Mode = "chan" Family = "%s" MaxN = %d\nINVARIANT Emit\nCHECK_DEADLOCK FALSE\n' % (family, maxn))
